@@ -4,7 +4,7 @@ from .common import *
 SIDECARS = ["modbus", "protocol_cmd"]
 KEYS = ["goodwe.modbus._modbus_checksum", "goodwe.modbus.validate_modbus_rtu_response",
         "goodwe.modbus.validate_modbus_tcp_response",
-        "goodwe.protocol.Aa55ProtocolCommand._validate_aa55_response"]
+        "goodwe.protocol.Aa55ProtocolCommand._validate_aa55_response"] + ['goodwe.protocol.ModbusRtuProtocolCommand.trim_response', 'goodwe.protocol.ModbusTcpProtocolCommand.trim_response', 'goodwe.protocol.Aa55ProtocolCommand.trim_response']
 
 
 def units(tier):
